@@ -301,16 +301,22 @@ Definition tviews (s : net) : tok :=
 Definition tnet2 (views : bool) (s : net) : tok :=
   if views then L [tnet s; tviews s] else L [tnet s].
 
-(** the first [skip] operations (a fixed preamble) are executed but not observed *)
-Fixpoint run_ops2 (views : bool) (skip : nat) (w : world2) (ops : list op2) : list tok :=
+(** the first [skip] operations (a fixed preamble) are executed but not observed;
+    with [lite] a query records only its answer (the state is recorded again at
+    the next mutator; that queries do not change it is judged by the oracle on
+    the implementation and is [C15_query_pure] in the model) *)
+Definition is_query (o : op2) : bool := match o with OQuery _ _ => true | _ => false end.
+Fixpoint run_ops2 (views lite : bool) (skip : nat) (w : world2) (ops : list op2) : list tok :=
   match ops with
   | [] => []
   | o :: os =>
       let '(w', er, a) := step2 w o in
       match skip with
-      | S k => run_ops2 views k w' os
-      | O => L [terr er; a; tlist (tnet2 views) (nets w'); tlist tside (pool w')] :: run_ops2 views O w' os
+      | S k => run_ops2 views lite k w' os
+      | O => (if lite && is_query o then L [terr er; a]
+              else L [terr er; a; tlist (tnet2 views) (nets w'); tlist tside (pool w')])
+             :: run_ops2 views lite O w' os
       end
   end.
-Definition run2 (views : bool) (n k skip : nat) (ops : list op2) : tok :=
-  L (run_ops2 views skip (init_world2 n k) ops).
+Definition run2 (views lite : bool) (n k skip : nat) (ops : list op2) : tok :=
+  L (run_ops2 views lite skip (init_world2 n k) ops).
